@@ -425,22 +425,27 @@ class RUndefinedError(Exception):
     pass
 
 
+class RSecurityError(Exception):
+    """stand-in for jinja2.sandbox.SecurityError (the 'unsafe' undefined of the sandbox raises it)."""
+
+
 class RUndefined:
     """Stand-in for the default undefined: printable, iterable, false; any
     other operation fails (docs/api.rst, class docstring)."""
 
-    __slots__ = ("why",)
+    __slots__ = ("why", "exc")
 
-    def __init__(self, why=""):
+    def __init__(self, why="", exc=RUndefinedError):
         self.why = why
+        self.exc = exc
 
     def _fail(self, *a, **k):
-        raise RUndefinedError(self.why)
+        raise self.exc(self.why)
 
     def __getattr__(self, name):
         if name[:2] == "__" and name[-2:] == "__":
             raise AttributeError(name)
-        raise RUndefinedError(self.why)
+        raise self.exc(self.why)
 
     __add__ = __radd__ = __sub__ = __rsub__ = __mul__ = __rmul__ = _fail
     __truediv__ = __rtruediv__ = __floordiv__ = __rfloordiv__ = __mod__ = __rmod__ = _fail
@@ -519,7 +524,7 @@ def canon(v, depth=0):
 
 def exc_name(e):
     n = type(e).__name__
-    return "UndefinedError" if n == "RUndefinedError" else n
+    return {"RUndefinedError": "UndefinedError", "RSecurityError": "SecurityError"}.get(n, n)
 
 
 # --- data objects (deterministic repr, no addresses)
@@ -531,12 +536,15 @@ class Probe:
 
     k = "attr-k"
     a = "attr-a"
+    _p = "private-attr"  # a real attribute with a leading underscore: blocked by the sandbox
 
     def __getitem__(self, key):
         if key == "k":
             return "item-k"
         if key == "i":
             return "item-i"
+        if key == "_i":
+            return "item-_i"  # an ITEM with a leading underscore: not an attribute, never blocked
         raise KeyError(key)
 
     def m(self, *args, **kwargs):
@@ -556,7 +564,7 @@ class EchoFn:
 
 def make_data(i):
     """the three data assignments (fresh objects every call)."""
-    base = {"o": Probe(), "d": {"items": "I", "k": "dk"}, "f": EchoFn()}
+    base = {"o": Probe(), "d": {"items": "I", "k": "dk"}, "f": EchoFn(), "du": {"_id": 7, "__x": 8, "k": 1}}
     if i == 0:
         base.update(x=2, y=3)
     elif i == 1:
@@ -689,8 +697,9 @@ class Ev:
     """R-expr.  `hook_bin(op, l, r)` / `hook_un(op, v)` replace the operators
     listed in `intercepted` (C20); `autoescape` selects the `~` flavour."""
 
-    def __init__(self, data, intercepted=frozenset(), hook_bin=None, hook_un=None, autoescape=False):
+    def __init__(self, data, intercepted=frozenset(), hook_bin=None, hook_un=None, autoescape=False, sandbox=False):
         self.data = data
+        self.sandbox = sandbox  # docs/sandbox.rst: attributes starting with an underscore are not accessible
         self.intercepted = intercepted
         self.hook_bin = hook_bin
         self.hook_un = hook_un
@@ -785,6 +794,8 @@ class Ev:
             v = self.ev(n[1])
             args = [self.ev(a) for a in n[3]]
             kwargs = {name: self.ev(a) for name, a in n[4]}
+            if n[2] == "attr" and len(args) == 1 and not kwargs and isinstance(args[0], str):
+                return self.attr_only(v, args[0])
             return R_FILTERS[n[2]](v, *args, **kwargs)
         if k == "test":
             v = self.ev(n[1])
@@ -800,30 +811,46 @@ class Ev:
             return Markup("").join(parts)
         return "".join(parts)
 
-    @staticmethod
-    def getattr(obj, name):
+    def _guard(self, obj, name, value):
+        """the sandbox restricts ATTRIBUTES (never items): private names give the 'unsafe' undefined."""
+        if self.sandbox and name.startswith("_"):
+            return RUndefined("access to attribute %r is unsafe" % name, RSecurityError)
+        return value
+
+    def getattr(self, obj, name):
         """foo.bar: attribute, then item, then undefined."""
         try:
-            return getattr(obj, name)
+            value = getattr(obj, name)
         except AttributeError:
             pass
+        else:
+            return self._guard(obj, name, value)
         try:
             return obj[name]
         except (TypeError, LookupError, AttributeError):
             return RUndefined(name)
 
-    @staticmethod
-    def getitem(obj, arg):
+    def getitem(self, obj, arg):
         """foo['bar']: item, then attribute, then undefined."""
         try:
             return obj[arg]
         except (TypeError, LookupError, AttributeError):
             if isinstance(arg, str):
                 try:
-                    return getattr(obj, arg)
+                    value = getattr(obj, arg)
                 except AttributeError:
                     pass
+                else:
+                    return self._guard(obj, arg, value)
             return RUndefined(repr(arg))
+
+    def attr_only(self, obj, name):
+        """foo|attr("bar"): the attribute only, never the item."""
+        try:
+            value = getattr(obj, name)
+        except AttributeError:
+            return RUndefined(name)
+        return self._guard(obj, name, value)
 
 
 def reference(node, data, **kw):
